@@ -5,6 +5,7 @@
 //!   steelsim one <scenario> <seed> <index>        (debug: run one and print the report)
 //!   steelsim determinism <scenario> [--runs N]    (self test)
 
+mod c04;
 mod c05;
 mod report;
 mod rng;
@@ -12,13 +13,15 @@ mod runner;
 mod sched;
 mod sites;
 mod vmsites;
+mod vmh;
+mod vmscript;
 
 use runner::{Aggregate, Scenario, Spec};
 use serde_json::{json, Value};
 use std::time::Instant;
 
 fn scenarios() -> Vec<&'static dyn Scenario> {
-    vec![&c05::C05]
+    vec![&c05::C05, &c04::C04, &vmscript::Script]
 }
 
 fn scenario_by_name(name: &str) -> &'static dyn Scenario {
@@ -80,6 +83,7 @@ fn main() {
         "replay" => cmd_replay(&args[1..]),
         "one" => cmd_one(&args[1..]),
         "determinism" => cmd_determinism(&args[1..]),
+        "script" => cmd_script(&args[1..]),
         _ => {
             eprintln!("unknown command {}", args[0]);
             2
@@ -320,4 +324,49 @@ fn cmd_determinism(args: &[String]) -> i32 {
     }
     println!("determinism {}: {} runs x3, {} distinct traces, {} mismatches", scn.name(), runs, fps.len(), bad);
     if bad > 0 { 2 } else { 0 }
+}
+
+fn cmd_script(args: &[String]) -> i32 {
+    let scn = scenario_by_name("script");
+    scn.setup();
+    let gc = arg_val(args, "--gc").unwrap_or_else(|| "0/1".into());
+    let mut it = gc.split('/');
+    let gc_num: u64 = it.next().and_then(|s| s.parse().ok()).unwrap_or(0);
+    let gc_den: u64 = it.next().and_then(|s| s.parse().ok()).unwrap_or(1);
+    let spec = Spec {
+        seed: base_seed(),
+        index: arg_val(args, "--index").and_then(|s| s.parse().ok()).unwrap_or(0),
+        overrides: json!({
+            "file": args.get(0).cloned().unwrap_or_default(),
+            "jit": !args.iter().any(|a| a == "--nojit"),
+            "gc_num": gc_num, "gc_den": gc_den,
+            "interrupt_at": arg_val(args, "--interrupt").and_then(|s| s.parse::<u64>().ok()),
+            "recycle": arg_val(args, "--recycle").and_then(|s| s.parse::<u64>().ok()),
+            "chunk": arg_val(args, "--chunk").and_then(|s| s.parse::<u64>().ok()),
+            "stale": args.iter().any(|a| a == "--stale"),
+            "yield": args.iter().any(|a| a == "--yield"),
+        }),
+        replay: None,
+        strict: false,
+        full_trace: false,
+        tier_thorough: false,
+    };
+    let r = runner::run_one(scn, &spec);
+    println!("{} {} {}", r.outcome, r.signature, r.detail);
+    if let Some(a) = r.raw["extra"]["results"].as_array() {
+        for x in a {
+            println!("  {} {}", x["result"].as_str().unwrap_or(""), x["stack"].as_str().unwrap_or(""));
+        }
+    }
+    println!("  heap: {}", r.raw["extra"]["heap"]);
+    if !r.raw["extra"]["first_stale"].is_null() {
+        println!("  first stale: {}", r.raw["extra"]["first_stale"]);
+    }
+    println!("  counters: {} steps={} switches={} faults={} probes={}", r.raw["extra"]["counters"], r.raw["steps"], r.raw["switches"], r.raw["faults"], r.raw["probes"]);
+    if args.iter().any(|a| a == "--tail") {
+        for e in r.raw["tail"].as_array().into_iter().flatten() {
+            println!("    {}", e.as_str().unwrap_or(""));
+        }
+    }
+    0
 }
